@@ -260,3 +260,46 @@ pub fn mixed_assoc_hlh() {
     vcheck!(x.timestamp == y.timestamp, "mixed:assoc:stamp");
     std::mem::forget((a, b, c, x, y));
 }
+
+// ---------------------------------------------------------------------------------------------------------------
+// hash values at the CrdtValue level (the (Hash, Hash) arm of CrdtValue::try_merge, which ReplicatedValue::merge and
+// ShardReplicaState::apply_remote_delta reach): field f only, three hashes each holding f or not, registers symbolic
+// (value / tombstone / stamp). The ReplicatedValue wrapper (vector clock, expiry, rf) is left out: with it the same
+// laws ran out their caps.
+fn any_crdt_hash_f() -> CrdtValue {
+    let mut h = crate::coll::HashMap::new();
+    let has = vs::bool();
+    let l = any_lww();
+    if has { h.insert("f".to_string(), l); }
+    CrdtValue::Hash(h)
+}
+fn crdt_field<'a>(v: &'a CrdtValue) -> Option<&'a LwwRegister<SDS>> { match v { CrdtValue::Hash(h) => h.get("f"), _ => None } }
+fn crdt_field_same(a: &CrdtValue, b: &CrdtValue) -> bool {
+    matches!(a, CrdtValue::Hash(_)) && matches!(b, CrdtValue::Hash(_))
+        && match (crdt_field(a), crdt_field(b)) { (Some(x), Some(y)) => lww_obs_eq(x, y), (None, None) => true, _ => false }
+}
+fn assume_unique(a: &CrdtValue, b: &CrdtValue) {
+    if let (Some(x), Some(y)) = (crdt_field(a), crdt_field(b)) { vs::assume(x.timestamp != y.timestamp || lww_same(x, y)); }
+}
+fn tm(a: &CrdtValue, b: &CrdtValue) -> CrdtValue {
+    match a.try_merge(b) { Ok(v) => v, Err(e) => { std::mem::forget(e); CrdtValue::Hash(crate::coll::HashMap::new()) } }
+}
+/// law: 0 commutative, 1 idempotent, 2 associative - in the register of field f (value, tombstone, stamp)
+pub fn hash_crdt_law(law: u8) {
+    let (a, b) = (any_crdt_hash_f(), any_crdt_hash_f());
+    assume_unique(&a, &b);
+    match law {
+        0 => { let (x, y) = (tm(&a, &b), tm(&b, &a)); vcheck!(crdt_field_same(&x, &y), "hashcrdt:comm:field register"); std::mem::forget((x, y)); }
+        1 => { let x = tm(&a, &a); vcheck!(crdt_field_same(&x, &a), "hashcrdt:idem:field register"); std::mem::forget(x); }
+        _ => {
+            let c = any_crdt_hash_f();
+            assume_unique(&a, &c); assume_unique(&b, &c);
+            let ab = tm(&a, &b);
+            let bc = tm(&b, &c);
+            let (x, y) = (tm(&ab, &c), tm(&a, &bc));
+            vcheck!(crdt_field_same(&x, &y), "hashcrdt:assoc:field register (a field deleted on one replica resurrects or vanishes depending on merge order)");
+            std::mem::forget((x, y, ab, bc, c));
+        }
+    }
+    std::mem::forget((a, b));
+}
